@@ -115,7 +115,14 @@ pub fn gen_string_len(classes: u32, n: u32) -> String {
     s
 }
 
-const KEY_POOL: &[&str] = &["a", "b", "c", "k", "key", "id", "x", "y", "name", "v", "", "0", "a b", "\"q\"", "é", "k\n"];
+// short keys, keys that share a prefix or differ only at the end, keys longer than 8 / 16 / 32 bytes, and
+// (in the later part, used only when the run's character classes allow) keys that need escaping
+const KEY_POOL: &[&str] = &[
+    "a", "b", "c", "k", "key", "id", "x", "y", "name", "v", "", "0",
+    "user_id", "user_name", "user", "keys", "keyring", "prefix_aaaaaaaaaaaaaaaa1", "prefix_aaaaaaaaaaaaaaaa2",
+    "a_key_that_is_longer_than_thirty_two_bytes_x", "a_key_that_is_longer_than_thirty_two_bytes_y",
+    "a b", "\"q\"", "é", "k\n",
+];
 
 pub fn gen_key(cfg: &GenCfg) -> String {
     if chance(1, 8) {
@@ -123,7 +130,7 @@ pub fn gen_key(cfg: &GenCfg) -> String {
         c.max_str = c.max_str.min(40);
         gen_string(&c)
     } else {
-        let lim = if cfg.classes & (CL_QUOTE | CL_CTRL | CL_U2) != 0 { KEY_POOL.len() } else { 12 };
+        let lim = if cfg.classes & (CL_QUOTE | CL_CTRL | CL_U2) != 0 { KEY_POOL.len() } else { KEY_POOL.len() - 4 };
         KEY_POOL[draw(lim as u32) as usize].to_string()
     }
 }
